@@ -71,7 +71,7 @@ FILES = [
 ]
 
 
-def run_interleave(ctx, nenf, k, first, kind):
+def run_interleave(ctx, nenf, k, first, kind, file0=0, names=None):
     from oslo_policy import policy
     common.set_ctx(ctx)
     shared = _shared(kind)
@@ -82,7 +82,7 @@ def run_interleave(ctx, nenf, k, first, kind):
             env = common.PolicyEnv()
             envs.append(env)
             end = bool(ctx.bool('end%d' % e))
-            fi = ctx.index('file%d' % e, len(FILES))
+            fi = (file0 + e) % len(FILES)
             if FILES[fi] or bool(ctx.bool('mainfile%d' % e)):
                 env.write('policy.yaml', FILES[fi])
             cfgs.append({'end': end, 'file': fi, 'edits': 0})
@@ -127,7 +127,7 @@ def run_interleave(ctx, nenf, k, first, kind):
         for j in range(nenf):
             ref = envs[j].enforcer(defaults=_shared(kind),
                                    enforce_new_defaults=cfgs[j]['end'])
-            for name in NAMES:
+            for name in (names or NAMES):
                 a = common.decision(ctx, enfs[j], name, creds)
                 b = common.decision(ctx, ref, name, creds)
                 ctx.observe('%d:%s' % (j, name), a)
@@ -147,19 +147,28 @@ def cubes_interleave(tier, seed):
     out = []
     if tier == 'quick':
         for first in range(4):
-            out.append({'nenf': 1, 'k': 4, 'first': first, 'kind': 'plain'})
+            for f0 in range(len(FILES)):
+                out.append({'nenf': 1, 'k': 4, 'first': first,
+                            'kind': 'plain', 'file0': f0})
         for first in range(8):
             for kind in ('plain', 'nested'):
-                out.append({'nenf': 2, 'k': 3, 'first': first, 'kind': kind})
+                for f0 in range(len(FILES)):
+                    out.append({'nenf': 2, 'k': 3, 'first': first,
+                                'kind': kind, 'file0': f0,
+                                'names': ['a', 'd']})
     else:
         for first in range(4):
             for kind in ('plain', 'nested'):
                 out.append({'nenf': 1, 'k': 6, 'first': first, 'kind': kind})
         for first in range(8):
             for kind in ('plain', 'nested'):
-                out.append({'nenf': 2, 'k': 4, 'first': first, 'kind': kind})
+                for f0 in range(len(FILES)):
+                    out.append({'nenf': 2, 'k': 4, 'first': first,
+                                'kind': kind, 'file0': f0})
         for first in range(12):
-            out.append({'nenf': 3, 'k': 3, 'first': first, 'kind': 'nested'})
+            for f0 in range(len(FILES)):
+                out.append({'nenf': 3, 'k': 3, 'first': first,
+                            'kind': 'nested', 'file0': f0})
     return out
 
 
@@ -183,7 +192,7 @@ def evidence(tier):
                        '3-4' if q else '3-6', OPS, 2 if q else 3,
                        len(FILES))},
         'symbols': ['op<i>: Int (enforcer x operation)', 'end<e>, '
-                    'mainfile<e>: Bool', 'file<e>: Int', 'creds.<role>: Bool'],
+                    'mainfile<e>: Bool', 'creds.<role>: Bool'],
         'stubs': ['real files / oslo.config'],
         'outside_claim': ['more than 3 enforcers, longer interleavings',
                           'concurrent loads (C20)'],
